@@ -73,22 +73,23 @@ def autocorr_1d_float(data):
     if nxy == 0:
         return result
 
-    A = nxy * Sxy - Sx_ * Sy_
-
-    # var(X[np.isfinite(X)]) Vairance of X excluding missing values
-    var_X = nx * Sxx - Sx * Sx
-    var_Y = ny * Syy - Sy * Sy
-
-    # var(X) where missing values were replaced with mean,
+    # mean of the valid values, used in place of the missing ones,
     #   i.e. X[X==nodata] = mean(X[X!=nodata])
-    var_X = var_X * nx / N
-    var_Y = var_Y * ny / N
+    mean_X = Sx / nx
+    mean_Y = Sy / ny
+
+    # covariance of the mean-filled X and Y: only pairs with both values valid contribute
+    A = (Sxy - mean_X * Sy_ - mean_Y * Sx_ + nxy * mean_X * mean_Y) / N
+
+    # variance of the mean-filled X and Y
+    var_X = (Sxx - Sx * mean_X) / N
+    var_Y = (Syy - Sy * mean_Y) / N
 
     if var_X < 1e-8 or var_Y < 1e-8:
         return result
 
     result = A * (var_X**-0.5) * (var_Y**-0.5)
-    return result
+    return min(1.0, max(-1.0, result))
 
 
 @njit
@@ -155,22 +156,23 @@ def autocorr_1d_int(data, nodata):
     if nxy == 0:
         return result
 
-    A = nxy * float64(Sxy) - float64(Sx_) * float64(Sy_)
-
-    # var(X[np.isfinite(X)]) Vairance of X excluding missing values
-    var_X = nx * float64(Sxx) - float64(Sx) * float64(Sx)
-    var_Y = ny * float64(Syy) - float64(Sy) * float64(Sy)
-
-    # var(X) where missing values were replaced with mean,
+    # mean of the valid values, used in place of the missing ones,
     #   i.e. X[X==nodata] = mean(X[X!=nodata])
-    var_X = var_X * nx / N
-    var_Y = var_Y * ny / N
+    mean_X = float64(Sx) / nx
+    mean_Y = float64(Sy) / ny
+
+    # covariance of the mean-filled X and Y: only pairs with both values valid contribute
+    A = (float64(Sxy) - mean_X * float64(Sy_) - mean_Y * float64(Sx_) + nxy * mean_X * mean_Y) / N
+
+    # variance of the mean-filled X and Y
+    var_X = (float64(Sxx) - float64(Sx) * mean_X) / N
+    var_Y = (float64(Syy) - float64(Sy) * mean_Y) / N
 
     if var_X < 1e-8 or var_Y < 1e-8:
         return result
 
     result = A * (var_X**-0.5) * (var_Y**-0.5)
-    return result
+    return min(1.0, max(-1.0, result))
 
 
 @njit
